@@ -19,9 +19,13 @@
 #elif defined( SPACE_EXC )
 #define VERIF_K 4
 #define VERIF_GROUPS ( T::G_CORE | T::G_CONV | T::G_EXC | T::G_HOLE )
-#define VERIF_FAMS ( 1 | 2 )
 #ifndef EXC_CTL
 #define EXC_CTL 0
+#endif
+#if EXC_CTL == 0
+#define VERIF_FAMS ( 1 | 2 | ( 1 << 20 ) )
+#else
+#define VERIF_FAMS ( 1 | 2 )
 #endif
 #define VERIF_CTLS ( 1 << EXC_CTL )
 #elif defined( SPACE_ACT )
@@ -51,7 +55,7 @@
 #elif defined( SPACE_TREE )
 // -DTREE_SEL=k selects the selector / transformer variant (engine/tree.hpp)
 #define VERIF_K 3
-#define VERIF_GROUPS ( T::G_CORE | T::G_MUST | T::G_EXC | T::G_HOLE )
+#define VERIF_GROUPS ( T::G_CORE | T::G_CORE3 | T::G_REP | T::G_MUST | T::G_EXC | T::G_HOLE )
 #define VERIF_FAMS ( 1 | 2 | 32 | 64 )
 #define VERIF_CTLS 1
 #define VERIF_TREE
@@ -63,7 +67,7 @@
 #define VERIF_DEPTH_INPUT
 #elif defined( SPACE_SCOPES )
 #define VERIF_K 4
-#define VERIF_GROUPS ( T::G_CORE | T::G_ACT | T::G_STATE )
+#define VERIF_GROUPS ( T::G_CORE | T::G_ACT | T::G_STATE | T::G_REMATCH )
 #define VERIF_FAMS ( ( 1 << 12 ) | ( 1 << 13 ) | ( 1 << 14 ) | ( 1 << 16 ) | ( 1 << 17 ) | ( 1 << 18 ) | ( 1 << 19 ) )
 #define VERIF_CTLS 8
 #elif defined( SPACE_ATOMS )
@@ -124,7 +128,7 @@ static std::vector< PL::Cfg > cfg_product( std::vector< int > fams, std::vector<
 #define CONV_OPS "IF_THEN_ELSE", "IF_MUST", "OPT_MUST", "IF_MUST_ELSE", "MUST", "MUST2", "STAR_MUST", "LIST", "LIST_MUST", "LIST_TAIL", "MINUS", "REMATCH", "PAD", "PAD_OPT", "PARTIAL1", "PARTIAL", "STAR_PARTIAL1", "STAR_PARTIAL", "STRICT1", "STRICT", "STAR_STRICT1", "STAR_STRICT", "UNTIL1", "UNTIL2"
 #define CONV_OPS3 "IF_MUST3", "OPT_MUST3", "STAR_MUST3", "LIST3", "LIST_MUST3", "LIST_TAIL3", "REMATCH3", "PAD3", "PARTIAL3", "STAR_PARTIAL3", "STRICT3", "STAR_STRICT3", "UNTIL3"
 #define REP_OPS "REP0", "REP1", "REP2", "REP3", "REP4", "REP2_2", "REP_MIN0", "REP_MIN1", "REP_MIN2", "REP_MIN3", "REP_MIN4", "REP_MIN2_2", "REP_MIN1_2", "REP_MIN0_2", "REP_MAX0", "REP_MAX1", "REP_MAX2", "REP_MAX3", "REP_MAX4", "REP_OPT1", "REP_OPT2", "REP_OPT3", "REP_OPT4", "REP_OPT2_2", "RMM00", "RMM01", "RMM02", "RMM03", "RMM04", "RMM11", "RMM12", "RMM13", "RMM14", "RMM22", "RMM23", "RMM24", "RMM33", "RMM34", "RMM44", "RMM12_2"
-#define EXC_OPS "RAISE_OF", "RAISE_MSG", "TC_RF", "TC_ANY_RF", "TC_STD_RF", "TC_TYPE_RF", "TC_RN", "TC_ANY_RN", "TC_STD_RN", "TC_TYPE_RN", "TC_RF2"
+#define EXC_OPS "RAISE_OF", "RAISE_MSG", "TC_RN_MSG", "TC_RF", "TC_ANY_RF", "TC_STD_RF", "TC_TYPE_RF", "TC_RN", "TC_ANY_RN", "TC_STD_RN", "TC_TYPE_RN", "TC_RF2"
 #define MUST_OPS "MUST", "MUST2", "IF_MUST", "OPT_MUST", "IF_MUST_ELSE", "STAR_MUST", "LIST_MUST"
 
 struct Space
@@ -272,6 +276,10 @@ struct Space
          p.need_hole = true;
          p.hole_may_throw = true;
          p.cfgs = cfg_product( { 0 }, { EXC_CTL }, { 1 }, { 1, 0 } );
+#if EXC_CTL == 0
+         p.cfgs.push_back( { 20, 0, 1, 1 } );  // control_action hooks at the action level, actions enabled / disabled at top level
+         p.cfgs.push_back( { 20, 0, 0, 1 } );
+#endif
          phases.push_back( p );
       }
       {
@@ -364,6 +372,7 @@ struct Space
          p.act_may_throw = true;
          p.dev_bound = thorough ? 2 : 1;
          p.cfgs = cfg_product( { 1, 5 }, { 0 }, { 1 }, { 0 } );
+         p.cfgs.push_back( { 1, 4, 1, 0 } );
          phases.push_back( p );
       }
 #elif defined( SPACE_TREE )
@@ -374,8 +383,8 @@ struct Space
       {
          Phase p;
          p.name = "parse_tree_closed";
-         p.root = { CORE_OPS, "TC_RF", "TC_ANY_RF", "MUST" };
-         p.inner = { "ANY", "ONE_A", "EOF_", "SUCCESS", CORE_OPS, "TC_RF", "TC_ANY_RF", "MUST" };
+         p.root = { CORE_OPS, "TC_RF", "TC_ANY_RF", "TC_RN", "MUST" };
+         p.inner = { "ANY", "ONE_A", "EOF_", "SUCCESS", CORE_OPS, "TC_RF", "TC_ANY_RF", "TC_RN", "MUST" };
          p.N = 3;
          p.L = thorough ? 6 : 5;
          p.sigma = "ab";
@@ -383,14 +392,28 @@ struct Space
          p.act_may_veto = true;
          p.dev_bound = thorough ? 3 : 2;
          p.cfgs = cfg_product( { 0, 1, 5, 6 }, { 0 }, { 1 }, { 0 } );
+         p.cfgs.push_back( { 0, 1, 1, 0 } );  // with a user state passed along
+         p.cfgs.push_back( { 1, 1, 1, 0 } );
          phases.push_back( p );
+         {
+            // multi-rule forms (an anonymous seq<> frame sits between the rule and its sub-rules) and numeric repetitions
+            Phase m = p;
+            m.name = "parse_tree_closed_multi_rule_forms";
+            m.root = { "SEQ3", "SOR3", "STAR2", "PLUS2", "OPT2", "RMM12_2", "RMM12", "REP2_2", "REP_MIN1_2", "REP_OPT2_2", "REP_MAX2", "SEQ", "SOR" };
+            m.inner = { "ANY", "ONE_A", "EOF_", "SEQ", "SOR", "STAR2", "PLUS2", "OPT2", "RMM12_2", "REP2_2", "REP_MIN1_2", "REP_OPT2_2" };
+            m.L = 4;
+            m.act_may_throw = false;
+            m.act_may_veto = false;
+            m.cfgs = cfg_product( { 0 }, { 0 }, { 1 }, { 0 } );
+            phases.push_back( m );
+         }
 #if TREE_SEL == 0
          {
             Phase e = p;
             e.name = "parse_tree_closed_must_if_plain_control";
             e.act_may_throw = false;
             e.act_may_veto = false;
-            e.cfgs = cfg_product( { 0 }, { 6 }, { 1 }, { 0 } );
+            e.cfgs = cfg_product( { 0 }, { 6, 7 }, { 1 }, { 0 } );
             phases.push_back( e );
          }
 #endif
@@ -439,7 +462,7 @@ struct Space
       {
          Phase p;
          p.name = "state_action_control_scopes";
-         p.root = { CORE_OPS, "STATE", "STATE_D", "ENABLE", "DISABLE", "CONTROL_SW" };
+         p.root = { CORE_OPS, "STATE", "STATE_D", "ENABLE", "DISABLE", "CONTROL_SW", "ACTION_FAMALT" };
          p.inner = { "ANY", "ONE_A", "EOF_", CORE_OPS, "STATE", "STATE_D", "DISABLE", "CONTROL_SW" };
          p.N = thorough ? 4 : 4;
          p.L = thorough ? 3 : 2;
@@ -447,6 +470,16 @@ struct Space
          p.flat_inner = false;
          p.cfgs = cfg_product( { 12, 13, 14, 16, 17, 18, 19 }, { 3 }, { 1, 0 }, { 1 } );
          phases.push_back( p );
+         {
+            // the action<> rule switching the family below disabled sections / predicates with a re-enabled part inside;
+            // control switches around the three-argument rematch (every re-matched rule runs under the control in force)
+            Phase q = p;
+            q.name = "action_rule_switch_and_rematch_under_switched_control";
+            q.root = { "DISABLE", "AT", "SEQ", "CONTROL_SW" };
+            q.inner = { "ANY", "ONE_A", "ENABLE", "ACTION_FAMALT", "SEQ", "REMATCH3", "CONTROL_SW" };
+            q.cfgs = cfg_product( { 12, 14 }, { 3 }, { 1, 0 }, { 1 } );
+            phases.push_back( q );
+         }
       }
 #elif defined( SPACE_ATOMS )
       result_prop = "C09";
